@@ -126,14 +126,14 @@ def all_exprs(expr, out):
     return out
 
 
-def observe_doc(src, skip=()):
+def observe_doc(src, skip=(), tolerance=0):
     """parse + project everything the document properties talk about"""
     from TexSoup import TexSoup
     from TexSoup.data import TexNode, TexText
     from harness import proj
 
     def run():
-        soup = TexSoup(src, skip_envs=tuple(skip))
+        soup = TexSoup(src, skip_envs=tuple(skip), tolerance=tolerance)
         items = soup.expr._contents
         o = {'out': str(soup), 'flat': proj.flat_seq(items), 'abs': proj.abs_flat(items)}
         ex = all_exprs(soup.expr, [])
